@@ -1,8 +1,8 @@
 (* C08 -- every component obeys the second law; a switched-off engine burns nothing.
    This file holds only the pinned statements; the proofs are in proofs/. *)
 From Coq Require Import Reals List Bool.
-From AltModel Require Import Num Interp Powertrain Loco.
-From AltProofs Require Import NumR InterpP PowertrainP LocoP C08P ExampleP.
+From AltModel Require Import Num Interp Powertrain Loco Consist Resist Braking TrainStep TrainFull.
+From AltProofs Require Import NumR InterpP PowertrainP LocoP C08P ExampleP ConsistP C01P WholeSimP.
 Import ListNotations.
 Open Scope R_scope.
 
@@ -48,3 +48,38 @@ Example C08_hypotheses_satisfiable : loco_ok loco0.
 Proof. exact loco0_ok. Qed.
 Example C08_engine_step_accepted : exists c', fc_solve fc1 100 1 true true = Ok c'.
 Proof. exact fc1_step_accepted. Qed.
+
+(* ---- the WHOLE train simulation (TrainFull.v: route, train dynamics, consist, locomotives) ----
+   [unit_laws l p l'] = C08's per-step statement (second_law_step, cum_le, loco_ok kept) together with
+   C01's (power ledger, energy ledger kept, SOC relation, delivered = share) for one unit.  In every
+   accepted whole step of either simulation every unit of the consist obeys them, and along every
+   whole run no unit's cumulative loss / fuel / braking energy ever decreases. *)
+Theorem C08_whole_set_speed_step : forall (e : Env (F:=R)) times speeds fmax st cache (c c' : ConsistR) st'' cache',
+  ss_full_step e times speeds fmax ((st, cache), c) = Ok ((st'', cache'), c') ->
+  (forall i t_i t_p, nth_error times (S i) = Some t_i -> nth_error times i = Some t_p -> t_p < t_i) ->
+  Forall loco_ok (cn_locos c) ->
+  exists shares, Forall3 unit_laws (cn_locos c) shares (cn_locos c') /\
+    Forall loco_ok (cn_locos c') /\ Forall2 cum_le (cn_locos c) (cn_locos c') /\
+    cs_pwr_out (cn_state c') = ConsistP.sumR (fun x => x) shares.
+Proof. exact ss_full_step_units. Qed.
+
+Theorem C08_whole_speed_limit_step : forall (e : Env (F:=R)) pts fmax (s s'' : SLState (F:=R)) (c c' : ConsistR),
+  sl_full_step e pts fmax (s, c) = Ok (s'', c') -> 0 < k_dt (ts_k (sl_st s)) ->
+  Forall loco_ok (cn_locos c) ->
+  exists shares, Forall3 unit_laws (cn_locos c) shares (cn_locos c') /\
+    Forall loco_ok (cn_locos c') /\ Forall2 cum_le (cn_locos c) (cn_locos c') /\
+    cs_pwr_out (cn_state c') = ConsistP.sumR (fun x => x) shares /\
+    k_dt (ts_k (sl_st s'')) = k_dt (ts_k (sl_st s)).
+Proof. exact sl_full_step_units. Qed.
+
+Theorem C08_whole_set_speed_run : forall (e : Env (F:=R)) times speeds fmax,
+  (forall i t_i t_p, nth_error times (S i) = Some t_i -> nth_error times i = Some t_p -> t_p < t_i) ->
+  forall n x x', Forall loco_ok (cn_locos (snd x)) -> ss_full_run n e times speeds fmax x = Ok x' ->
+  Forall loco_ok (cn_locos (snd x')) /\ Forall2 cum_le (cn_locos (snd x)) (cn_locos (snd x')).
+Proof. exact ss_full_run_units. Qed.
+
+Theorem C08_whole_speed_limit_run : forall (e : Env (F:=R)) pts fmax n x x',
+  0 < k_dt (ts_k (sl_st (fst x))) -> Forall loco_ok (cn_locos (snd x)) ->
+  sl_full_run n e pts fmax x = Ok x' ->
+  Forall loco_ok (cn_locos (snd x')) /\ Forall2 cum_le (cn_locos (snd x)) (cn_locos (snd x')).
+Proof. exact sl_full_run_units. Qed.
